@@ -139,7 +139,8 @@ type finding struct {
 //     identical signature (a repeat may come back with the ORIGINAL timestamp, which makes the bytes identical);
 //   - nothing is signed for an HRS below one already released.
 //
-// The key names the root-cause class: which rule, and how the earlier release got forgotten.
+// The key names the root-cause class: the broken rule for in-process defects, the way the earlier release
+// got lost for restart defects.
 func judge(e, n release, powerLoss bool) *finding {
 	var rule, what string
 	switch c := cmpHRS(n.hrs, e.hrs); {
@@ -154,22 +155,27 @@ func judge(e, n release, powerLoss bool) *finding {
 	default:
 		return nil
 	}
-	how := ""
 	switch {
 	case e.api == apiSignVoteWithoutSave:
 		// root cause independent of rule and of crashes: the call never records what it signed
 		return &finding{"SignVoteWithoutSave:hrs-not-recorded", "FilePV.SignVoteWithoutSave releases a signature without recording the height/round/step (neither in memory nor on disk): " + what}
 	case e.life == n.life:
-		how = "same-lifetime"
-	case e.inflight:
-		how = "across-restart:signature-visible-before-record-durable"
-	default:
-		how = "across-restart:completed-release-forgotten"
+		// a defect of the in-process checks: the broken rule is the root-cause class
+		return &finding{rule + ":same-lifetime", what + " within one process lifetime"}
 	}
-	if e.life != n.life && powerLoss {
+	// the earlier release was forgotten by the restart: the durability defect is the root-cause class,
+	// whichever rule it then breaks
+	how := "completed-release-forgotten"
+	desc := "a signature handed out by a call that had returned is not covered by the record the restarted signer loads"
+	if e.inflight {
+		how = "signature-visible-before-record-durable"
+		desc = "a signature was stored in the caller's object before the last-signed record was durable; after a crash at that point the restarted signer does not know about it"
+	}
+	if powerLoss {
 		how += ":power-loss"
+		desc += " (state after a power loss that drops unsynced data)"
 	}
-	return &finding{rule + ":" + how, what}
+	return &finding{"across-restart:" + how, desc + ": " + what + " (" + rule + ")"}
 }
 
 // ---------------------------------------------------------------------------------------------------------
@@ -180,9 +186,16 @@ type outcome struct {
 	released *release
 }
 
-var reTemp = regexp.MustCompile(`write-file-atomic-[0-9A-Za-z]+`)
+var (
+	reTemp  = regexp.MustCompile(`write-file-atomic-[0-9A-Za-z]+`)
+	reMount = regexp.MustCompile(regexp.QuoteMeta(vfs.Root) + `c04-(w[0-9]+|init)/`)
+)
 
-func canon(s string) string { return reTemp.ReplaceAllString(s, "write-file-atomic-*") }
+// canon removes what differs between runs and workers from a message: the random temp-file suffix and the
+// worker's mount name.
+func canon(s string) string {
+	return reMount.ReplaceAllString(reTemp.ReplaceAllString(s, "write-file-atomic-*"), "<datadir>/")
+}
 
 func classify(err string) string {
 	for _, k := range []string{"Height regression", "Round regression", "Step regression", "Conflicting data", "No LastSignature found"} {
@@ -473,7 +486,7 @@ func (w *worker) recoverAndResume(cfg *config, st *vfs.FS, hist []int, resume in
 			}
 			again := w.recoverAndResume(cfg, st, hist, resume, nil)
 			if !sameRun(run, again) {
-				vk.Fatalf("memoisation self-check failed: two crash states with the same key file content and the same remaining requests behaved differently (history %v, resume %d)", hist, resume)
+				vk.Fatalf("memoisation self-check failed: two crash states with the same key file content and the same remaining requests behaved differently (history %v, resume %d): %+v vs %+v", hist, resume, *run, *again)
 			}
 			w.nMemoChecked++
 			return run
